@@ -314,16 +314,21 @@ class MarshalSerializer(SerializerBase):
     serializer_id = 2  # never change this
 
     def dumpsCall(self, obj, method, vargs, kwargs):
-        vargs = [self.convert_obj_into_marshallable(value) for value in vargs]
-        kwargs = {key: self.convert_obj_into_marshallable(value) for key, value in (kwargs or {}).items()}
+        vargs = [self.convert_toplevel(value) for value in vargs]
+        kwargs = {key: self.convert_toplevel(value) for key, value in (kwargs or {}).items()}
         return marshal.dumps((obj, method, vargs, kwargs))
 
     def dumps(self, data):
+        return marshal.dumps(self.convert_toplevel(data))
+
+    def convert_toplevel(self, data):
+        """conversion of one argument or result: the object itself and, for a list, its items
+        (the same for arguments and results, so that both arrive in the same form)"""
         if type(data) is list:
-            # convert the items too, like dumpsCall does for the arguments: the result list of a batch call
-            # can hold class instances (such as the wrapper of a raised exception) that marshal cannot dump itself
+            # the result list of a batch call can hold class instances (such as the wrapper of a raised exception)
+            # that marshal cannot dump itself
             data = [self.convert_obj_into_marshallable(value) for value in data]
-        return marshal.dumps(self.convert_obj_into_marshallable(data))
+        return self.convert_obj_into_marshallable(data)
 
     def loadsCall(self, data):
         data = self._convertToBytes(data)
